@@ -141,20 +141,30 @@ Theorem C02_comp_selu_spec (x : rten) (a s : R) : rok x ->
 Proof. exact (t_selu_spec x a s). Qed.
 Print Assumptions C02_comp_selu_spec.
 
-(* dropout: disabled = identity; rate 1 = zeros of the shape of x; otherwise x * mask / (1 - rate)
-   for the mask random::bernoulli returned (so rate 0 with an all-ones mask is the identity) *)
-Theorem C02_comp_dropout_spec (x mask : rten) (rate : R) :
-  t_dropout x rate false mask = x /\
+(* dropout DISABLED is the identity for EVERY rate (rate 1 included), whatever the mask: the source
+   tests `!enabled` before `rate == 1.` (contrib/functions.h:300-301) and so does the transcription *)
+Theorem C02_comp_dropout_disabled_identity (x mask : rten) (rate : R) : t_dropout x rate false mask = x.
+Proof. exact (t_dropout_disabled x rate mask). Qed.
+Print Assumptions C02_comp_dropout_disabled_identity.
+
+(* dropout enabled: rate 1 = zeros of the shape of x (`0 * x`); otherwise x * mask / (1 - rate) for the
+   mask random::bernoulli returned (so rate 0 with an all-ones mask is the identity) *)
+Theorem C02_comp_dropout_enabled_spec (x mask : rten) (rate : R) :
   (rok x -> tsh (t_dropout x 1 true mask) = tsh x /\ tdat (t_dropout x 1 true mask) = map (fun _ => 0%R) (tdat x)) /\
   (forall p, rok x -> rate <> 1%R -> tvolume (tsh mask) = tvolume (tsh x) -> tbatch (tsh mask) = tbatch (tsh x) ->
      p < tsize (tsh x) -> rnth (t_dropout x rate true mask) p = (rnth x p * rnth mask p / (1 - rate))%R) /\
   (forall p, rok x -> tvolume (tsh mask) = tvolume (tsh x) -> tbatch (tsh mask) = tbatch (tsh x) ->
      p < tsize (tsh x) -> rnth mask p = 1%R -> rnth (t_dropout x 0 true mask) p = rnth x p).
 Proof.
-  exact (conj (t_dropout_disabled x rate mask) (conj (t_dropout_rate1 x mask)
-          (conj (t_dropout_spec x rate mask) (t_dropout_rate0 x mask)))).
+  exact (conj (t_dropout_rate1 x mask) (conj (t_dropout_spec x rate mask) (t_dropout_rate0 x mask))).
 Qed.
-Print Assumptions C02_comp_dropout_spec.
+Print Assumptions C02_comp_dropout_enabled_spec.
+
+(* the order of the two early returns matters: the transcription with `rate == 1.` tested first
+   (t_dropout_swapped) violates the disabled-identity theorem at rate 1 *)
+Example C02_comp_dropout_swapped_order_refuted :
+  exists x mask : rten, rok x /\ t_dropout x 1 false mask = x /\ t_dropout_swapped x 1 false mask <> x.
+Proof. exact t_dropout_swapped_breaks_disabled. Qed.
 
 (* sum / mean over a non-empty container of variables of one shape: coordinatewise *)
 Theorem C02_comp_container_spec (V B : nat) (x0 : rten) (xs : list rten) (p : nat) :
